@@ -88,6 +88,16 @@ ModSign == {Mod(nn, dd) : nn \in {Fn("abs", X), Fn("Abs", Y), Bn("mul", X, X), F
                           dd \in {X, Y, A, Neg(N("3")), N("2"), Neg(N("0.5"))}}
            \cup {Mod(nn, dd) : nn \in {X, Y, Neg(X), Bn("sub", X, A)}, dd \in {Fn("abs", A), Neg(Fn("abs", Y)), N("3"), Neg(N("2"))}}
            \cup {Fn("floor", Neg(X)), Fn("floor", Bn("div", X, Y)), Fn("abs", Bn("sub", X, A)), Fn("floor", Bn("mul", Neg(N("0.5")), A))}
+\* integer-valued sub-expressions (conditionals with integer branches, floor, sums / products / Mod of integers) where a
+\* typed backend could divide integers: as the numerator of a quotient, inside an exponent, scaled afterwards
+IntValued == {Cond(Rel(r, X, A), N("1"), N("0")) : r \in {"Ge", "Lt"}} \cup {Cond(Rel("Gt", Y, N("0")), N("1"), N("3")), Fn("floor", X),
+              Mod(N("3"), N("2")), N("3"), Bn("add", N("1"), N("2")), Neg(Cond(Rel("Le", X, Y), N("3"), N("1"))),
+              Cond(And(<<Rel("Gt", X, N("0")), Rel("Lt", Y, A)>>), N("1"), N("0"))}
+IntQuot == {Bn("div", i, d) : i \in IntValued, d \in {N("2"), N("3"), Neg(N("2"))}}
+           \cup {Bn("pow", Fn("abs", X), Bn("div", i, N("2"))) : i \in IntValued}
+           \cup {Bn("mul", Bn("div", i, N("2")), Y) : i \in IntValued}
+           \cup {Bn("div", Bn("mul", i, j), N("2")) : i \in IntValued, j \in IntValued}
+           \cup {Bn("add", Bn("div", i, N("2")), Bn("div", N("1"), N("2"))) : i \in IntValued}
 SmallFamilies(c1) == NestC(c1)
 
 \* The universe of level Lvl is generated in two steps so that TLC's workers share the work and no
@@ -106,7 +116,7 @@ Compose(a) ==
     [] Lvl = 2 -> Un({a})
     [] Lvl = 3 -> Bin(Leaves, {a}) \cup Bin({a}, Leaves)
     [] Lvl = 4 -> IF a = Marker THEN {} ELSE Bool3(a) \cup Cond3(a)
-    [] Lvl = 8 -> IF a = Marker THEN CC \cup LitS \cup ParamCond \cup ModSign \cup Window ELSE NestC(a)
+    [] Lvl = 8 -> IF a = Marker THEN CC \cup LitS \cup ParamCond \cup ModSign \cup Window \cup IntQuot ELSE NestC(a)
     [] Lvl = 5 -> Chain3(a) \cup Signs(a)
     [] Lvl = 6 -> Bin5({a}, B1)
     [] Lvl = 7 -> Bin5({a}, U1 \cup Leaves) \cup Un(Un({a}))
